@@ -626,6 +626,30 @@ func (env *Env) evalCall(x *ECall) SV {
 	case "contains":
 		argn(2)
 		return mathBool(env.fc.errContains(env.eval(x.Args[0]), env.eval(x.Args[1])))
+	case "hasTypeTV":
+		argn(3)
+		T := env.typeArg(x.Args[2])
+		if T == nil {
+			env.fail("unknown type in %s", exprString(x))
+		}
+		errT := types.Universe.Lookup("error").Type()
+		el := SV{Typ: errT, T: []Term{env.evalInt(x.Args[0]), env.evalInt(x.Args[1])}}
+		return mathBool(env.fc.errHasType(el, T))
+	case "asPtr":
+		// asPtr(intExpr, *T): view an integer (e.g. an interface's .val) as a typed pointer
+		argn(2)
+		T := env.typeArg(x.Args[1])
+		if T == nil || !isPointer(T) {
+			env.fail("asPtr needs a pointer type in %s", exprString(x))
+		}
+		return SV{Typ: T, T: []Term{env.evalInt(x.Args[0])}}
+	case "tagOf":
+		argn(1)
+		T := env.typeArg(x.Args[0])
+		if T == nil {
+			env.fail("unknown type in %s", exprString(x))
+		}
+		return mathInt(num(int64(e.tagOf(T))))
 	case "errContainsTV":
 		// contains(err, (tag, val)) with the element given by its two components
 		argn(3)
@@ -655,7 +679,11 @@ func (env *Env) evalCall(x *ECall) SV {
 				env.fail("uf %s: boolean argument", x.Fn)
 			}
 			args = append(args, v.T[0])
-			sorts = append(sorts, SInt)
+			if v.Typ != nil && v.Typ != tMathInt && v.Typ != tNil && isArray(v.Typ) {
+				sorts = append(sorts, SArrInt)
+			} else {
+				sorts = append(sorts, SInt)
+			}
 		}
 		env.vc.declUF("uf_"+u.Name, sorts, u.Sort)
 		env.vc.usedUF[u.Name] = true
